@@ -17,11 +17,25 @@ import (
 // intercepted) and names addresses / node pointers the way the Lean model does:
 // nodes are numbered in the order in which they are linked (0 = the dummy node).
 type listTarget struct {
-	l                           *listz.SyncList[int]
-	headAddr, tailAddr, lenAddr unsafe.Pointer
-	idx                         map[unsafe.Pointer]int
-	nodes                       []unsafe.Pointer
-	err                         string
+	l                  *listz.SyncList[int]
+	headAddr, tailAddr unsafe.Pointer
+	// every OTHER top-level field of the SyncList struct, by address range: the element
+	// counter `len` of today's code, and whatever a changed tree keeps instead (two
+	// monotonic counters `pushed`/`popped`, a striped counter, …).  An integer atomic on
+	// such a field is rendered with the field's own name (`ld len=3`, `add pushed +1=4`):
+	// on the unchanged tree that is exactly the model's `len` vocabulary, on a changed
+	// tree the trace stays readable and the property oracle (which reads only head/tail
+	// operations and the results of the calls) keeps working.
+	base   uintptr
+	fields []fieldSpan
+	idx    map[unsafe.Pointer]int
+	nodes  []unsafe.Pointer
+	err    string
+}
+
+type fieldSpan struct {
+	name     string
+	off, end uintptr
 }
 
 func fieldAddr(v reflect.Value, name string) (unsafe.Pointer, bool) {
@@ -35,13 +49,20 @@ func fieldAddr(v reflect.Value, name string) (unsafe.Pointer, bool) {
 func newListTarget(ninit int) *listTarget {
 	t := &listTarget{l: listz.NewSync[int](), idx: map[unsafe.Pointer]int{}}
 	rv := reflect.ValueOf(t.l).Elem()
-	var ok1, ok2, ok3 bool
+	var ok1, ok2 bool
 	t.headAddr, ok1 = fieldAddr(rv, "head")
 	t.tailAddr, ok2 = fieldAddr(rv, "tail")
-	t.lenAddr, ok3 = fieldAddr(rv, "len")
-	if !ok1 || !ok2 || !ok3 {
-		t.err = "harness-error: SyncList no longer has fields head/tail/len"
+	if !ok1 || !ok2 {
+		t.err = "harness-error: SyncList no longer has fields head/tail"
 		return t
+	}
+	t.base = rv.UnsafeAddr()
+	for i := 0; i < rv.NumField(); i++ {
+		f := rv.Type().Field(i)
+		if f.Name == "head" || f.Name == "tail" || f.Type.Size() == 0 {
+			continue
+		}
+		t.fields = append(t.fields, fieldSpan{name: f.Name, off: f.Offset, end: f.Offset + f.Type.Size()})
 	}
 	dummy := *(*unsafe.Pointer)(t.headAddr)
 	t.idx[dummy] = 0
@@ -89,6 +110,22 @@ func (t *listTarget) nodeOf(addr unsafe.Pointer) (int, bool) {
 	return 0, false
 }
 
+// fieldOf names the top-level field of the SyncList struct (other than head/tail) whose
+// memory contains addr.
+func (t *listTarget) fieldOf(addr unsafe.Pointer) (string, bool) {
+	a := uintptr(addr)
+	if a < t.base {
+		return "", false
+	}
+	off := a - t.base
+	for _, f := range t.fields {
+		if off >= f.off && off < f.end {
+			return f.name, true
+		}
+	}
+	return "", false
+}
+
 func okStr(b bool) string {
 	if b {
 		return "ok"
@@ -104,36 +141,51 @@ func (t *listTarget) FmtOp(op *sched.Op) string {
 		return "yield"
 	}
 	var where string
+	counter := ""
 	switch op.Addr {
 	case t.headAddr:
 		where = "head"
 	case t.tailAddr:
 		where = "tail"
-	case t.lenAddr:
-		where = "len"
 	default:
+		if name, ok := t.fieldOf(op.Addr); ok {
+			counter = name
+			break
+		}
 		i, ok := t.nodeOf(op.Addr)
 		if !ok {
 			return fmt.Sprintf("?%s unknown-address", op.Kind)
 		}
 		where = fmt.Sprintf("next[%d]", i)
 	}
-	if where == "len" {
+	if counter != "" && op.Width == 0 {
+		where, counter = counter, "" // a further pointer-valued field: rendered like head/tail
+	}
+	if counter != "" {
+		// integer operands are shown as signed numbers of the operation's width
+		sx := func(v uint64) int64 {
+			if op.Width == 32 {
+				return int64(int32(uint32(v)))
+			}
+			return int64(v)
+		}
 		switch op.Kind {
 		case sched.KLoad:
-			return fmt.Sprintf("ld len=%d", int64(op.Res))
+			return fmt.Sprintf("ld %s=%d", counter, sx(op.Res))
 		case sched.KAdd:
-			d := int64(op.New)
+			d := sx(op.New)
 			if d >= 0 {
-				return fmt.Sprintf("add len +%d=%d", d, int64(op.Res))
+				return fmt.Sprintf("add %s +%d=%d", counter, d, sx(op.Res))
 			}
-			return fmt.Sprintf("add len %d=%d", d, int64(op.Res))
+			return fmt.Sprintf("add %s %d=%d", counter, d, sx(op.Res))
 		case sched.KStore:
-			return fmt.Sprintf("st len=%d", int64(op.New))
+			return fmt.Sprintf("st %s=%d", counter, sx(op.New))
 		case sched.KCAS:
-			return fmt.Sprintf("cas len %d->%d %s", int64(op.Old), int64(op.New), okStr(op.OK))
+			return fmt.Sprintf("cas %s %d->%d %s", counter, sx(op.Old), sx(op.New), okStr(op.OK))
+		case sched.KSwap:
+			return fmt.Sprintf("swap %s=%d was %d", counter, sx(op.New), sx(op.Res))
 		}
-		return "?" + op.Kind.String() + " len"
+		return "?" + op.Kind.String() + " " + counter
 	}
 	switch op.Kind {
 	case sched.KLoad:
